@@ -166,4 +166,14 @@ PROPS = {
         quick=dict(shards=16, checks=300, extra=[dict(run="TestSizes", shards=4)], timeout=900),
         thorough=dict(shards=16, checks=6000, extra=[dict(run="TestSizes", shards=16)], timeout=3400),
     ),
+    "C16": dict(
+        pkg="c16",
+        technique="property-based testing (rapid) with strict independent marker-segment walkers as validity predicate over every encoder's output",
+        level_text="Exploration: seeded rapid generators over all encoders (Baseline, Extended 8/12, Lossless 0-7, SV1, JPEG-LS lossless/near, JPEG 2000 reversible/irreversible/tiled/layered/all progressions, HTJ2K .201/.202/.203, RLE) with noise-dominant content, dimensions >= 256 and 65535 strips, up to 64 tiles; each stream is walked strictly and its header fields compared with the arguments.",
+        level_note="Trusts harness/ref/walk (JPEG/JPEG-LS/JPEG 2000 walkers) and ref/rleref; they are written from the standards and share no code with /repo.",
+        rule=("rapid-generated (encoder, image, parameters). Non-trivial: the entropy-coded part contains at least one 0xFF byte (stuffing / marker avoidance exercised) or the codestream has >= 2 tile-parts (RLE: always). Distinct = hash of the case."),
+        assumptions=COMMON_ASSUME,
+        quick=dict(shards=16, checks=300, extra=[], timeout=900),
+        thorough=dict(shards=16, checks=6000, extra=[], timeout=3400),
+    ),
 }
